@@ -96,6 +96,18 @@ def sub_twins(w):
     return out
 
 
+def all_wrong_kind(v):
+    """A container value with EVERY leaf replaced by a value of another kind (as many failing
+    siblings as there are leaves, under keys of whatever kinds the container has)."""
+    if isinstance(v, list):
+        return [all_wrong_kind(x) for x in v]
+    if isinstance(v, dict):
+        return {k: all_wrong_kind(x) for k, x in v.items()}
+    if isinstance(v, str):
+        return 0
+    return "q"
+
+
 def missing_variants(w, depth=0):
     """Dict values as dict subclasses that answer lookups of absent keys (`__missing__`):
     defaultdict inserts a default on `d[k]`, Counter returns 0 without inserting.  The whole
@@ -246,6 +258,9 @@ def value_universe(t, limit=None):
         vals += missing_variants(w)
     for w in ws[:3]:
         vals += sub_twins(w)
+    for w in ws[:2]:
+        if isinstance(w, (list, dict)) and len(w) >= 2:
+            vals.append(all_wrong_kind(w))
     nhead = len(vals)
     for w in ws:
         vals += perturb(w)
